@@ -458,6 +458,7 @@ func c02scale(c *Ctx) {
 	r := c.R
 	c02exact(c)
 	c02setters(c)
+	c02failurePaths(c)
 	quotaDeleteMirror(c)
 	r.Rule("KEY-ROLE(min scaling): in ScaleMinQuotaManager.{update,remove,getScaledMinQuota} every keyed access to enableScaleSubsSumMinQuotaMap/disableScaleSubsSumMinQuotaMap uses the parent-name parameter and every keyed access to originalMinQuotaMap/quotaEnableMinQuotaScaleMap uses the quota's own name parameter (the sums belong to the parent; a quota's own name indexes the sums of ITS children)")
 	role := map[string]int{"enableScaleSubsSumMinQuotaMap": 0, "disableScaleSubsSumMinQuotaMap": 0, "originalMinQuotaMap": 1, "quotaEnableMinQuotaScaleMap": 1}
